@@ -16,6 +16,7 @@ mutations, and nesting up to 10^5 in child processes with a time limit); see `to
 -/
 import SimplicityModel.HumanCompose
 import SimplicityModel.HumanProg
+import SimplicityModel.HumanNamer
 
 namespace Props.C17
 open HT PO
@@ -148,6 +149,15 @@ theorem rendered_names_unique (name : T → Name) (payload : T → Payload) (roo
     (ha : (render name payload root)[i]? = some a) (hb : (render name payload root)[j]? = some b)
     (hab : a.name = b.name) : i = j :=
   render_names_unique name payload root hi hn i j a b ha hb hab
+
+/-- the names the model of `Namer::assign_name` hands out (`id7`, `cp12`, `const3`, `wit1`, `FAIL6`,
+`asstl4`, …) are symbols: they meet the hypothesis on names of `parse_render_partial` (`Stmt.wf`) -/
+theorem namer_names_are_symbols (nm : Namer) (nd : Prog.Node) (hh : ∀ h, nd ≠ .hidden h) :
+    symOK (nm.assign nd).1 = true :=
+  namer_assign_symOK nm nd hh
+
+example : ((({} : Namer).assign (.comp 0 1)).1, (({ other := 11 } : Namer).assign (.fail [])).1) =
+    ("cp1".toList, "FAIL12".toList) := by decide
 
 /-- a shared node: `main := pair u u` with one `unit` object `u`; the hypotheses hold and the
 rendering has two statements -/
